@@ -28,9 +28,14 @@ type GoTypeOpts struct {
 	Extra []reflect.Type
 }
 
+// NamedKey is a named string type used as map key type: such maps are
+// string-keyed maps as far as the library's kind-based dispatch is concerned.
+type NamedKey string
+
 var (
-	TString = reflect.TypeOf("")
-	TIface  = reflect.TypeOf((*interface{})(nil)).Elem()
+	TString   = reflect.TypeOf("")
+	TNamedKey = reflect.TypeOf(NamedKey(""))
+	TIface    = reflect.TypeOf((*interface{})(nil)).Elem()
 )
 
 var scalarTypes = []reflect.Type{
@@ -75,6 +80,9 @@ func (g *TypeGen) Type(depth int) reflect.Type {
 		}
 		return reflect.SliceOf(g.Type(depth + 1))
 	case 10, 11:
+		if r.P(1, 5) {
+			return reflect.MapOf(TNamedKey, g.Type(depth+1))
+		}
 		return reflect.MapOf(TString, g.Type(depth+1))
 	case 12, 13:
 		if g.O.NoPtr {
